@@ -4,3 +4,399 @@ from ..facts import span_str
 from ..models import norm
 
 E3_FLOORS = {"C05": 30, "C07": 60, "C03": 6, "C10": 20, "C11": 8, "C13": 8, "C14": 4, "C16": 150, "C17": 1, "C12": 4}
+
+
+# =====================================================================================================================
+#  helpers
+# =====================================================================================================================
+from ..terms import TermEval, show, strip_refs, subterms, TooComplex
+from ..callgraph import ty_adts, ty_local_adts
+
+
+def _te(ctx, inline=True):
+    k = "_te_%s" % inline
+    if not hasattr(ctx, k):
+        setattr(ctx, k, TermEval(ctx.facts, ctx.cg, inline=inline))
+    return getattr(ctx, k)
+
+
+def cursor_adts(ctx):
+    """local ADTs that are list cursors: >= 2 fields of the handle type and an Iterator impl"""
+    r = ctx.roles
+    out = []
+    for name, a in ctx.facts.adts.items():
+        if a["kind"] != "struct":
+            continue
+        eps = [f["name"] for f in a["variants"][0]["fields"] if r.is_eptr_ty(f["ty"])]
+        if len(eps) >= 2 and r.trait_method("std::iter::Iterator", "next", name) is not None:
+            out.append((name, eps))
+    return out
+
+
+def copy_out_adts(ctx):
+    """cursor ADTs whose next/next_back reach the bitwise copy-out primitive"""
+    out = []
+    for name, eps in cursor_adts(ctx):
+        nb = ctx.roles.trait_method("std::iter::Iterator", "next", name)
+        if nb is not None and ctx.eff.trans(nb)["copy_out"]:
+            out.append(name)
+    return out
+
+
+def holders_of(ctx, adt_names):
+    """local ADTs that contain (transitively, by value) one of the given ADTs; returns dict name -> field path"""
+    res = {}
+    changed = True
+    names = set(adt_names)
+    while changed:
+        changed = False
+        for n, a in ctx.facts.adts.items():
+            if n in names or n in res:
+                continue
+            for f in a["variants"][0]["fields"] if a["kind"] == "struct" else []:
+                t = f["ty"]
+                if t.get("k") == "adt" and (t["name"] in names or t["name"] in res):
+                    res[n] = f["name"]
+                    changed = True
+    return res
+
+
+def _canon(s, repl):
+    for a, b in repl:
+        s = s.replace(a, b)
+    return s
+
+
+# =====================================================================================================================
+#  C12: the two-cursor state machines
+# =====================================================================================================================
+def cursor_machine(ctx, body, eps):
+    """canonical description of a next/next_back body of a cursor ADT, or (None, reason)"""
+    r = ctx.roles
+    te = _te(ctx, True)
+    try:
+        results = te.all_results(body, max_paths=40)
+    except TooComplex as e:
+        return None, str(e)
+    if not results:
+        return None, "no normal path"
+    raw = r.EPTR_RAW
+    # which cursor field is dereferenced for the yielded entry?
+    Y = None
+    for res in results:
+        s = show(res.ret)
+        for f in eps:
+            if ("p1.%s.%s" % (f, raw)) in s:
+                if Y is not None and Y != f:
+                    return None, "yields through two different cursors (%s, %s)" % (Y, f)
+                Y = f
+    if Y is None:
+        return None, "no cursor field is dereferenced for the yielded item"
+    others = [f for f in eps if f != Y]
+    if len(others) != 1:
+        return None, "expected exactly two cursor fields"
+    O = others[0]
+    paths = []
+    E = None
+    for res in results:
+        conds = []
+        for (d, chosen, _bb) in res.conds:
+            ds = show(d)
+            m = None
+            for f in eps:
+                if ds.endswith("::is_null(*p1.%s.%s)" % (f, raw)):
+                    m = ("isnull", f, chosen != 0)
+            if m is None and (" Eq " in ds):
+                fs = sorted(f for f in eps if ("*p1.%s.%s" % (f, raw)) in ds)
+                if fs == sorted(eps):
+                    m = ("meet", None, chosen != 0)
+            if m is None:
+                m = ("other", ds, chosen)
+            conds.append(m)
+        rs = show(res.ret)
+        if res.ret[0] == "agg" and res.ret[3] == "None":
+            ret = "None"
+        elif res.ret[0] == "agg" and res.ret[3] == "Some":
+            ent_b = "**p1.%s.%s" % (Y, raw)
+            ent_t = "std::ptr::read::<%s<K, V>>(*p1.%s.%s)" % (r.entry, Y, raw)
+            ok_b = (ent_b + "." + r.E_KEY) in rs and (ent_b + "." + r.E_VAL) in rs
+            ok_t = (ent_t + "." + r.E_KEY) in rs and (ent_t + "." + r.E_VAL) in rs
+            # key first, value second
+            ki = rs.find("." + r.E_KEY + ")")
+            vi = rs.find("." + r.E_VAL + ")")
+            ret = "Some(kv of entry at own cursor)" if (ok_b or ok_t) and 0 <= ki < vi else "Some(?: %s)" % rs[:120]
+        else:
+            ret = "?: " + rs[:120]
+        stores = []
+        for (pt, val, _bb) in res.stores:
+            ps, vs = show(pt), show(val)
+            tgt = None
+            for f in eps:
+                if ps == "*p1.%s" % f:
+                    tgt = f
+            if tgt is None:
+                stores.append(("other", ps, vs))
+                continue
+            if "null_mut" in vs or "std::ptr::null" in vs:
+                stores.append((tgt, "null"))
+            else:
+                link = None
+                for l in r.links:
+                    if vs.endswith(".%s" % l) and (("p1.%s.%s" % (Y, raw)) in vs):
+                        link = l
+                stores.append((tgt, "link:%s" % link if link else "?: " + vs[:100]))
+        for (kind, f, val) in conds:
+            if kind == "isnull":
+                if E is not None and E != f:
+                    return None, "tests two different cursors for exhaustion (%s, %s)" % (E, f)
+                E = f
+        paths.append((tuple(conds), ret, tuple(sorted(stores))))
+    return {"Y": Y, "O": O, "E": E, "paths": sorted(paths, key=str)}, None
+
+
+def expected_machine(Y, O, E, link):
+    return sorted([
+        ((("isnull", E, False), ("meet", None, False)), "Some(kv of entry at own cursor)", ((Y, "link:%s" % link),)),
+        ((("isnull", E, False), ("meet", None, True)), "Some(kv of entry at own cursor)", ((E, "null"),)),
+        ((("isnull", E, True),), "None", ()),
+    ], key=str)
+
+
+def c12(ctx, res):
+    r = ctx.roles
+    te = _te(ctx, True)
+    curs = cursor_adts(ctx)
+    res.floor("C12 cursor iterator types", len(curs), 2)
+    machines = {}
+    for (adt, eps) in curs:
+        for (trait, m) in (("std::iter::Iterator", "next"), ("std::iter::DoubleEndedIterator", "next_back")):
+            b = r.trait_method(trait, m, adt)
+            if b is None:
+                res.violate("C12.1:%s:%s:missing" % (adt, m), "`%s` has no `%s`" % (adt, m), None, {}, "C12.1 cursor machine")
+                continue
+            mc, why = cursor_machine(ctx, b, eps)
+            res.count("C12.1 cursor machines")
+            if mc is None:
+                res.violate("C12.1:%s:%s:unrecognised" % (adt, m), "cannot read `%s::%s` as a two-cursor step: %s" % (adt, m, why),
+                            span_str(b.span), {}, "C12.1 cursor machine")
+                continue
+            machines[(adt, m)] = (mc, b)
+        # constructor: which field starts at the LRU end?
+    for (adt, eps) in curs:
+        if (adt, "next") not in machines or (adt, "next_back") not in machines:
+            continue
+        (mn, bn), (mb, bb_) = machines[(adt, "next")], machines[(adt, "next_back")]
+        front, back = mn["Y"], mb["Y"]
+        ok = front != back
+        res.oblige("C12.1 `%s`: next and next_back advance different cursors" % adt, ok, key="C12.1:%s:same-cursor" % adt, loc=span_str(bb_.span),
+                   rule="C12.1 cursor machine", msg="next and next_back of `%s` both advance `%s`" % (adt, front))
+        same_e = mn["E"] == mb["E"] and mn["E"] is not None
+        res.oblige("C12.2 `%s`: next and next_back test and clear the same exhaustion cursor" % adt, same_e,
+                   key="C12.2:%s:exhaustion-cursor-differs" % adt, loc=span_str(bb_.span), rule="C12.2 exhaustion discipline",
+                   msg="`%s`: next treats `%s` as the exhaustion marker, next_back `%s`: after one direction exhausts the iterator the other "
+                       "still yields" % (adt, mn["E"], mb["E"]))
+        for (m, mc, b, link, what) in (("next", mn, bn, r.L_LRU, "toward the most-recently-used end"),
+                                       ("next_back", mb, bb_, r.L_MRU, "toward the least-recently-used end")):
+            exp = expected_machine(mc["Y"], mc["O"], mc["E"], link)
+            got = mc["paths"]
+            # tolerate extra stores that only null cursor fields on the meeting path
+            def relax(paths):
+                out = []
+                for (conds, ret, stores) in paths:
+                    st2 = tuple(s for s in stores if not (s[1] == "null" and s[0] != mc["E"] and ("meet", None, True) in conds))
+                    out.append((conds, ret, st2))
+                return sorted(out, key=str)
+            good = relax(got) == exp
+            res.oblige("C12.1/2 `%s::%s` is the cursor step: yield the entry at its cursor, then advance %s, or clear the exhaustion cursor when "
+                       "the cursors meet; nothing once exhausted" % (adt, m, what), good,
+                       detail={"found": [str(p) for p in got], "expected": [str(p) for p in exp]}, key="C12.1:%s:%s:machine" % (adt, m),
+                       loc=span_str(b.span), rule="C12.1 cursor machine (mirror/sibling agreement)",
+                       msg="`%s::%s` deviates from the two-cursor step shared by its siblings (a cross-check, see DESIGN.md): found %s, expected %s"
+                           % (adt, m, [str(p) for p in got], [str(p) for p in exp]))
+            res.sample({"method": "%s::%s" % (adt, m), "own_cursor": mc["Y"], "exhaustion_cursor": mc["E"], "paths": [str(p) for p in got]})
+        # constructor
+        for b in ctx.facts.bodies:
+            if b.kind == "assoc_fn" and b.impl_self and b.impl_self.get("name") == adt and not b.impl_trait and \
+                    b.j["output"].get("k") == "adt" and b.j["output"].get("name") == adt:
+                check_cursor_ctor(ctx, res, b, adt, front, back)
+    # wrappers delegate direction and project the right component
+    check_wrappers(ctx, res, [a for a, _ in curs])
+    # owning iterators: Drop exhausts, then clears without dropping
+    check_owning_drops(ctx, res, "C12")
+    res.assumptions.append("mirror/sibling agreement is a cross-check against the shared two-cursor step, not a proof of all interleavings")
+
+
+def check_cursor_ctor(ctx, res, b, adt, front, back):
+    r = ctx.roles
+    te = _te(ctx, True)
+    rs = te.all_results(b, max_paths=20)
+    res.count("C12.2 cursor constructors")
+    good = True
+    why = []
+    kinds = set()
+    for pr in rs:
+        ret = pr.ret
+        if ret[0] != "agg":
+            good = False
+            why.append("does not build the iterator directly")
+            continue
+        f = dict(ret[4])
+        fs, bs = show(f.get(front, ("?",))), show(f.get(back, ("?",)))
+        if "null_mut" in fs and "null_mut" in bs:
+            kinds.add("empty")
+            # must be on the path where the cache is empty
+            if not any(("len" in show(d) or "is_empty" in show(d) or "Eq" in show(d)) for (d, ch, _b) in pr.conds):
+                good = False
+                why.append("null cursors without an emptiness test")
+        elif fs.endswith(".%s.%s" % (r.SEAL, r.EPTR_RAW) + "." + r.L_LRU) or (("." + r.SEAL + ".") in fs and fs.endswith("." + r.L_LRU)):
+            kinds.add("full")
+            if not (("." + r.SEAL + ".") in bs and bs.endswith("." + r.L_MRU)):
+                good = False
+                why.append("back cursor `%s` does not start at the seal's MRU link (%s)" % (back, bs[:80]))
+        else:
+            good = False
+            why.append("front cursor `%s` does not start at the seal's LRU link (%s)" % (front, fs[:80]))
+    if kinds != {"empty", "full"}:
+        good = False
+        why.append("expected an empty and a non-empty construction, found %s" % sorted(kinds))
+    res.oblige("C12.2 `%s` starts with (seal.LRU-link, seal.MRU-link), or two null cursors iff the cache is empty" % b.path, good, detail=why,
+               key="C12.2:%s:constructor" % b.path, loc=span_str(b.span), rule="C12.2 constructor",
+               msg="constructor `%s`: %s" % (b.path, "; ".join(why)))
+
+
+def check_wrappers(ctx, res, cursor_names):
+    """Keys/Values/IntoKeys/IntoValues/Drain/IntoIter: each direction delegates to the same direction of the wrapped iterator
+    and projects the component named by the item type"""
+    r = ctx.roles
+    te = _te(ctx, False)
+    n = 0
+    for b in ctx.facts.bodies:
+        if b.kind != "assoc_fn" or b.name not in ("next", "next_back") or not b.impl_self or not b.impl_self.get("local"):
+            continue
+        if b.impl_trait not in ("std::iter::Iterator", "std::iter::DoubleEndedIterator"):
+            continue
+        adt = b.impl_self.get("name")
+        if adt in cursor_names or not b.file.endswith(ctx.facts.body(r.method("iter").path).file if r.method("iter") else ""):
+            pass
+        if adt in cursor_names:
+            continue
+        a = ctx.facts.adts.get(adt)
+        if a is None or not any(x in ty_adts(f["ty"]) for f in a["variants"][0]["fields"] for x in set(cursor_names) | set(holders_of(ctx, cursor_names))):
+            continue
+        n += 1
+        res.count("C12.2 wrapper methods")
+        rs = te.all_results(b, max_paths=8)
+        good = len(rs) == 1
+        why = []
+        if good:
+            t = rs[0].ret
+            inner = t
+            proj = None
+            if t[0] == "call" and "Option" in t[1] and "::map" in t[1]:
+                inner = t[2][0]
+                clos = t[2][1]
+                if clos[0] == "closure":
+                    cb = ctx.facts.body(clos[1])
+                    cr = te.all_results(cb, max_paths=4) if cb else []
+                    if len(cr) == 1:
+                        ps = show(cr[0].ret)
+                        if ps in ("p2.0", "&p2.0", "*p2.0"):
+                            proj = 0
+                        elif ps in ("p2.1", "&p2.1", "*p2.1"):
+                            proj = 1
+                        else:
+                            why.append("projection closure returns `%s`" % ps)
+            if not (inner[0] == "call" and (" as std::iter::Iterator>::next" in inner[1] or " as std::iter::DoubleEndedIterator>::next_back" in inner[1])):
+                good = False
+                why.append("does not delegate to the wrapped iterator: `%s`" % show(inner)[:120])
+            else:
+                called = "next_back" if "::next_back" in inner[1] else "next"
+                if called != b.name:
+                    good = False
+                    why.append("`%s` delegates to the wrapped iterator's `%s`" % (b.name, called))
+                # argument: a field of self
+                if not show(inner[2][0]).startswith("&*p1.") and not show(inner[2][0]).startswith("&p1."):
+                    good = False
+                    why.append("delegates on `%s`, not on a field of self" % show(inner[2][0])[:60])
+            # expected projection from the item type
+            out = b.j["output"]
+            item = out["args"][0] if out.get("k") == "adt" and out.get("args") else None
+            gens = [g["name"] for g in a["generics"] if g["kind"] == "type"]
+            want = None
+            if item is not None:
+                core = item
+                while core.get("k") == "ref":
+                    core = core["ty"]
+                if core.get("k") == "param" and len(gens) >= 2:
+                    want = 0 if core["name"] == gens[0] else (1 if core["name"] == gens[1] else None)
+                elif core.get("k") == "tuple":
+                    want = "pair"
+            if want == "pair":
+                if proj is not None:
+                    good = False
+                    why.append("item is the pair but a component is projected")
+            elif want in (0, 1):
+                if proj != want:
+                    good = False
+                    why.append("item type is the %s but component .%s is projected" % ("key" if want == 0 else "value", proj))
+        else:
+            why.append("%d paths" % len(rs))
+        res.oblige("C12.2 `%s` delegates `%s` to the same direction of the wrapped iterator and yields the right component" % (b.path, b.name),
+                   good and not why, detail=why, key="C12.2:%s:delegation" % b.path, loc=span_str(b.span), rule="C12.2 wrapper delegation",
+                   msg="`%s`: %s" % (b.path, "; ".join(why)))
+    res.floor("C12.2 wrapper methods", n, 12)
+
+
+def check_owning_drops(ctx, res, prop):
+    """Drop of every holder of a copy-out iterator: on every path first run the iterator to exhaustion, then mark the table that
+    holds the (now moved-out) entries empty without dropping; nothing else may precede the exhaustion"""
+    r = ctx.roles
+    cg = ctx.cg
+    co = copy_out_adts(ctx)
+    hs = holders_of(ctx, co)
+    n = 0
+    for adt in hs:
+        db = r.trait_method("std::ops::Drop", "drop", adt)
+        a = ctx.facts.adts[adt]
+        direct = any(f["ty"].get("k") == "adt" and f["ty"]["name"] in co for f in a["variants"][0]["fields"])
+        if db is None:
+            if direct:
+                res.violate("%s.3:%s:no-drop" % (prop, adt), "`%s` holds a copy-out iterator but has no Drop impl: unconsumed entries leak and "
+                            "consumed ones stay registered in the table" % adt, span_str(a["span"]), {}, "%s.3 owning-iterator drop" % prop)
+            continue
+        n += 1
+        res.count("%s.3 owning iterator drops" % prop)
+        g = cfg_of(db)
+        calls = cg.calls.get(db.path, [])
+        nexts = [c for c in calls if (c.trait in ("std::iter::Iterator", "std::iter::DoubleEndedIterator")) and c.name in ("next", "next_back")]
+        clears = [c for c in calls if c.model and c.model.get("table") == "clear" and norm(c.resolved or c.nominal).endswith("clear_no_drop")]
+        loops = g.loops()
+        why = []
+        loop_h = None
+        for h, blocks in loops.items():
+            if any(c.bb in blocks for c in nexts):
+                loop_h = h
+                loop_blocks = blocks
+        if loop_h is None:
+            why.append("no loop that runs the iterator to exhaustion")
+        if not clears:
+            why.append("no clear_no_drop of the table whose entries were moved out")
+        if loop_h is not None and clears:
+            rets = g.return_blocks()
+            for c in clears:
+                if c.bb in loop_blocks:
+                    why.append("clear_no_drop inside the exhaustion loop")
+                if not g.dominates(loop_h, c.bb):
+                    why.append("clear_no_drop can be reached without passing the exhaustion loop")
+            if not g.all_paths_pass(0, rets, [c.bb for c in clears]):
+                why.append("a path returns without clear_no_drop (the moved-out entries would be dropped again with the table)")
+            if not g.all_paths_pass(0, [c.bb for c in clears], [loop_h]):
+                why.append("a path reaches clear_no_drop without running the exhaustion loop (unconsumed entries leak)")
+            # the loop must be left only through the None edge of next(): the loop exit edge leaves from the switch on the call's result
+            for c in nexts:
+                if c.bb in loop_blocks:
+                    pass
+        res.oblige("%s.3 `Drop for %s` exhausts the iterator on every path, then marks the table empty without dropping" % (prop, adt), not why,
+                   detail=why, key="%s.3:%s:drop-discipline" % (prop, adt), loc=span_str(db.span), rule="%s.3 owning-iterator drop" % prop,
+                   msg="`Drop for %s`: %s" % (adt, "; ".join(why)))
+    res.floor("%s.3 owning iterator drops" % prop, n, 2)
